@@ -15,6 +15,7 @@ import (
 
 	"rscheck/cfgq"
 	"rscheck/core"
+	"rscheck/pat"
 )
 
 // Package paths and type names of the anchors.
@@ -27,7 +28,27 @@ const (
 
 // IsSendBuf: e selects DbSyncer.sendBuf.
 func IsSendBuf(info *types.Info, e ast.Expr) bool {
-	return core.IsFieldNamed(info, e, Syncer, "sendBuf")
+	if core.IsFieldNamed(info, e, Syncer, "sendBuf") {
+		return true
+	}
+	// a local that is only ever the queue: `out := ds.sendBuf`
+	id, ok := ast.Unparen(e).(*ast.Ident)
+	if !ok {
+		return false
+	}
+	v, ok := core.ObjOf(info, id).(*types.Var)
+	if !ok || v.IsField() {
+		return false
+	}
+	if _, isChan := v.Type().Underlying().(*types.Chan); !isChan {
+		return false
+	}
+	fd := enclosingDecl(v.Pkg(), v.Pos())
+	if fd == nil {
+		return false
+	}
+	o, ok := SoleOrigin(info, fd, id)
+	return ok && o.Expr != nil && o.Op == 0 && !o.Range && o.Res <= 0 && core.IsFieldNamed(info, o.Expr, Syncer, "sendBuf")
 }
 
 // Enq is one enqueue of the parser: a `ds.sendBuf <- cmdDetail{...}` statement
@@ -149,7 +170,12 @@ func ProjectLocal(info *types.Info, scope ast.Node, e ast.Expr) ast.Expr {
 	if written {
 		return e
 	}
-	return Project(&ast.SelectorExpr{X: o.Expr, Sel: sel.Sel})
+	def := o.Expr
+	if curProg != nil && v.Pkg() != nil {
+		// a constructor helper whose body is one `return T{...}`
+		def = InlineOneLiners(curProg, info, scope, def, v.Pkg().Path(), 0)
+	}
+	return Project(&ast.SelectorExpr{X: def, Sel: sel.Sel})
 }
 
 // LocalClosure returns the function literal that the identifier fun denotes
@@ -310,6 +336,182 @@ func subst(info *types.Info, scope ast.Node, e ast.Expr, bind Binding, depth int
 	return e
 }
 
+// ChaseCopy follows single-definition copies (`t := u`, `t := x.f`) of the local e stands for.
+func ChaseCopy(info *types.Info, scope ast.Node, e ast.Expr) ast.Expr {
+	for step := 0; step < 8; step++ {
+		id, ok := ast.Unparen(e).(*ast.Ident)
+		if !ok || scope == nil {
+			return e
+		}
+		if v, ok := core.ObjOf(info, id).(*types.Var); !ok || v.IsField() {
+			return e
+		}
+		var def *Origin
+		n := 0
+		for _, o := range Origins1(info, scope, id) {
+			if o.Zero {
+				continue
+			}
+			n++
+			oc := o
+			def = &oc
+		}
+		if n != 1 || def.Expr == nil || def.Op != 0 || def.Range || def.Res >= 0 || def.Param {
+			return e
+		}
+		switch ast.Unparen(def.Expr).(type) {
+		case *ast.Ident, *ast.SelectorExpr:
+			e = def.Expr
+		default:
+			return e
+		}
+	}
+	return e
+}
+
+// Origins1 lists the direct definitions of the local x (one step, no chasing through copies).
+func Origins1(info *types.Info, scope ast.Node, x *ast.Ident) []Origin {
+	obj := core.ObjOf(info, x)
+	var out []Origin
+	ast.Inspect(scope, func(n ast.Node) bool {
+		switch s := n.(type) {
+		case *ast.AssignStmt:
+			for i, l := range s.Lhs {
+				lid, ok := ast.Unparen(l).(*ast.Ident)
+				if !ok || core.ObjOf(info, lid) != obj {
+					continue
+				}
+				switch {
+				case s.Tok != token.ASSIGN && s.Tok != token.DEFINE:
+					out = append(out, Origin{Expr: s.Rhs[0], Res: -1, Op: s.Tok, Stmt: s})
+				case len(s.Lhs) == len(s.Rhs):
+					out = append(out, Origin{Expr: s.Rhs[i], Res: -1, Stmt: s})
+				default:
+					out = append(out, Origin{Expr: s.Rhs[0], Res: i, Stmt: s})
+				}
+			}
+		case *ast.IncDecStmt:
+			if lid, ok := ast.Unparen(s.X).(*ast.Ident); ok && core.ObjOf(info, lid) == obj {
+				out = append(out, Origin{Res: -1, Op: s.Tok, Stmt: s})
+			}
+		case *ast.RangeStmt:
+			for i, l := range []ast.Expr{s.Key, s.Value} {
+				if lid, ok := l.(*ast.Ident); ok && core.ObjOf(info, lid) == obj {
+					out = append(out, Origin{Expr: s.X, Res: i, Range: true, Stmt: s})
+				}
+			}
+		case *ast.ValueSpec:
+			for i, nm := range s.Names {
+				if info.Defs[nm] != obj {
+					continue
+				}
+				switch {
+				case len(s.Values) == 0:
+					out = append(out, Origin{Res: -1, Zero: true, Stmt: s})
+				case len(s.Values) == len(s.Names):
+					out = append(out, Origin{Expr: s.Values[i], Res: -1, Stmt: s})
+				default:
+					out = append(out, Origin{Expr: s.Values[0], Res: i, Stmt: s})
+				}
+			}
+		case *ast.UnaryExpr:
+			if lid, ok := ast.Unparen(s.X).(*ast.Ident); ok && s.Op == token.AND && core.ObjOf(info, lid) == obj {
+				out = append(out, Origin{Expr: s, Res: 0, Stmt: s})
+			}
+		}
+		return true
+	})
+	if len(out) == 0 {
+		out = append(out, Origin{Expr: x, Res: -1, Param: true})
+	}
+	return out
+}
+
+// unconditionalAfterDecl: the only assignment of v executes whenever its `var v T`
+// declaration did (nothing but blocks, labels and run-once loops in between).
+func unconditionalAfterDecl(info *types.Info, scope ast.Node, v *types.Var, assign ast.Node) bool {
+	path := core.PathTo(scope, assign)
+	// the innermost block that contains the declaration
+	start := -1
+	for i, n := range path {
+		if n.Pos() <= v.Pos() && v.Pos() < n.End() {
+			if _, ok := n.(*ast.BlockStmt); ok {
+				start = i
+			}
+		}
+	}
+	if start < 0 {
+		return false
+	}
+	for i := start + 1; i < len(path)-1; i++ {
+		switch path[i].(type) {
+		case *ast.BlockStmt, *ast.LabeledStmt:
+		case *ast.ForStmt:
+			if !RunsOnce(path, i) {
+				return false
+			}
+		default:
+			return false
+		}
+	}
+	// no early leave of the run-once blocks before the assignment
+	early := false
+	for i := start; i < len(path)-1; i++ {
+		blk, ok := path[i].(*ast.BlockStmt)
+		if !ok {
+			continue
+		}
+		for _, st := range blk.List {
+			if st.End() > assign.Pos() {
+				break
+			}
+			ast.Inspect(st, func(m ast.Node) bool {
+				if b, ok := m.(*ast.BranchStmt); ok && b.Tok == token.BREAK && b.Label != nil {
+					early = true
+				}
+				if _, ok := m.(*ast.ReturnStmt); ok {
+					early = true
+				}
+				return true
+			})
+		}
+	}
+	return !early
+}
+
+// writtenBetween: variable w is assigned at a position in (from, to).
+func writtenBetween(info *types.Info, scope ast.Node, w *types.Var, from, to token.Pos) bool {
+	hit := false
+	ast.Inspect(scope, func(n ast.Node) bool {
+		if n == nil || hit {
+			return false
+		}
+		if n.End() < from || n.Pos() > to {
+			return true
+		}
+		switch x := n.(type) {
+		case *ast.AssignStmt:
+			if x.Pos() > from && x.Pos() < to {
+				for _, l := range x.Lhs {
+					if IsObj(info, w)(l) {
+						hit = true
+					}
+				}
+			}
+		case *ast.IncDecStmt:
+			if x.Pos() > from && x.Pos() < to && IsObj(info, w)(x.X) {
+				hit = true
+			}
+		case *ast.UnaryExpr:
+			if x.Op == token.AND && IsObj(info, w)(x.X) {
+				hit = true
+			}
+		}
+		return true
+	})
+	return hit
+}
+
 // Helper describes a callee whose body can be looked into: a function declared
 // in the package pkgPath of the module, or a closure bound to a local of scope.
 type Helper struct {
@@ -378,17 +580,65 @@ func InlineOneLiners(p *core.Program, info *types.Info, scope ast.Node, e ast.Ex
 			}
 		}
 	case *ast.Ident:
-		// a hoisted condition: a bool local with one definition that is not a call result
-		if v, ok := core.ObjOf(info, x).(*types.Var); ok && !v.IsField() && scope != nil && types.Identical(v.Type().Underlying(), types.Typ[types.Bool]) {
-			if o, ok := SoleOrigin(info, scope, x); ok && o.Expr != nil && o.Op == 0 && !o.Range && o.Res < 0 && !o.Param && ast.Unparen(o.Expr) != ast.Expr(x) {
-				if _, isConst := info.Types[o.Expr]; !isConst || info.Types[o.Expr].Value == nil {
-					switch ast.Unparen(o.Expr).(type) {
-					case *ast.BinaryExpr, *ast.UnaryExpr:
-						if len(Origins(info, scope, x)) == 1 {
-							return InlineOneLiners(p, info, scope, o.Expr, pkgPath, depth+1)
+		// a local that merely stands for another expression: a copy of a variable
+		// (`t := v`, unchanged in between) or a hoisted bool condition
+		v, ok := core.ObjOf(info, x).(*types.Var)
+		if !ok || v.IsField() || scope == nil || depth > 6 {
+			return e
+		}
+		var def *Origin
+		n, zero := 0, false
+		for _, o := range Origins1(info, scope, x) {
+			if o.Zero {
+				zero = true
+				continue
+			}
+			n++
+			oc := o
+			def = &oc
+		}
+		if n != 1 || def.Expr == nil || def.Op != 0 || def.Range || def.Res >= 0 || def.Param || def.Stmt == nil {
+			return e
+		}
+		if zero && !unconditionalAfterDecl(info, scope, v, def.Stmt) {
+			return e
+		}
+		if tv, isConst := info.Types[def.Expr]; isConst && tv.Value != nil {
+			return e
+		}
+		switch d := ast.Unparen(def.Expr).(type) {
+		case *ast.Ident:
+			w, ok := core.ObjOf(info, d).(*types.Var)
+			if !ok || w.IsField() || writtenBetween(info, scope, w, def.Stmt.End(), x.Pos()) {
+				return e
+			}
+			return InlineOneLiners(p, info, scope, d, pkgPath, depth+1)
+		case *ast.SelectorExpr:
+			// a copy of a struct field that is not assigned in the function (`id := ds.startDbId`)
+			if f := core.FieldOf(info, d); f != nil {
+				written := false
+				ast.Inspect(scope, func(m ast.Node) bool {
+					switch w := m.(type) {
+					case *ast.AssignStmt:
+						for _, l := range w.Lhs {
+							if core.FieldOf(info, l) == f {
+								written = true
+							}
+						}
+					case *ast.IncDecStmt:
+						if core.FieldOf(info, w.X) == f {
+							written = true
 						}
 					}
+					return true
+				})
+				if !written {
+					return d
 				}
+			}
+		case *ast.BinaryExpr, *ast.UnaryExpr:
+			if types.Identical(v.Type().Underlying(), types.Typ[types.Bool]) {
+				return InlineOneLiners(p, info, scope, def.Expr, pkgPath, depth+1)
 			}
 		}
 	}
@@ -519,6 +769,11 @@ func AnalyseParser(c *core.Ctx) *Parser {
 				return true
 			}
 			lit, _ := ast.Unparen(x.Value).(*ast.CompositeLit)
+			if lit == nil { // the value may be built in a local first
+				if o, ok := SoleOrigin(p.Info, fn.Decl, x.Value); ok && o.Expr != nil && o.Op == 0 && !o.Range && o.Res < 0 {
+					lit, _ = ast.Unparen(o.Expr).(*ast.CompositeLit)
+				}
+			}
 			addEnq(&Enq{Stmt: x, Field: map[string]ast.Expr{}}, x, lit, func(v ast.Expr) ast.Expr { return v })
 		case *ast.CallExpr:
 			// a helper (declared in the package, or a closure bound to a local) whose body is one enqueue
@@ -580,6 +835,12 @@ type Sender struct {
 	RC        *XCtx        // the frame that holds the range over the batch (the closure itself, or a helper)
 	RangeX    XPoint       // evaluation of the ranged expression
 	RangeExpr ast.Expr     // the ranged expression in the closure's vocabulary
+	Loop      ast.Stmt     // the loop over the batch: Range, or an index loop
+	LoopBody  *ast.BlockStmt
+	kBody     cfg.BlockKind
+	kHead     cfg.BlockKind
+	kDone     cfg.BlockKind
+	elem      func(ast.Expr) bool // element expression of an index loop (batch[i])
 	Range     *ast.RangeStmt
 	RangePt   cfgq.Point // RangeX when the range is in the closure itself
 	ItemVar   types.Object
@@ -912,7 +1173,61 @@ func IsFlush(info *types.Info) func(ast.Node) bool {
 	}
 }
 
+// KBody, KHead, KDone: the block kinds of the loop over the batch.
+func (s *Sender) KBody() cfg.BlockKind { return s.kBody }
+func (s *Sender) KHead() cfg.BlockKind { return s.kHead }
+func (s *Sender) KDone() cfg.BlockKind { return s.kDone }
+
+// IsItem: e denotes the element of the current iteration of the loop over the batch.
+func (s *Sender) IsItem(info *types.Info, e ast.Expr) bool {
+	if s.ItemVar != nil && IsObj(info, s.ItemVar)(e) {
+		return true
+	}
+	return s.elem != nil && s.elem(e)
+}
+
+// indexLoop recognises `for i := 0; i < len(b); i++` and returns i and b.
+func indexLoop(info *types.Info, f *ast.ForStmt) (types.Object, ast.Expr) {
+	init, ok := f.Init.(*ast.AssignStmt)
+	if !ok || init.Tok != token.DEFINE || len(init.Lhs) != 1 || len(init.Rhs) != 1 {
+		return nil, nil
+	}
+	if v, isC := core.IntConst(info, init.Rhs[0]); !isC || v != 0 {
+		return nil, nil
+	}
+	iv := core.ObjOf(info, init.Lhs[0])
+	post, ok := f.Post.(*ast.IncDecStmt)
+	if !ok || post.Tok != token.INC || !IsObj(info, iv)(post.X) || f.Cond == nil {
+		return nil, nil
+	}
+	b := pat.Expr("_i < len(_b)").Match(info, f.Cond, pat.Binds{"_i": init.Lhs[0]})
+	if b == nil {
+		return nil, nil
+	}
+	bx, _ := b["_b"].(ast.Expr)
+	// the index is not modified in the body
+	mod := false
+	ast.Inspect(f.Body, func(m ast.Node) bool {
+		switch x := m.(type) {
+		case *ast.AssignStmt:
+			for _, l := range x.Lhs {
+				mod = mod || IsObj(info, iv)(l)
+			}
+		case *ast.IncDecStmt:
+			mod = mod || IsObj(info, iv)(x.X)
+		}
+		return true
+	})
+	if mod {
+		return nil, nil
+	}
+	return iv, bx
+}
+
 func sliceOfCmd(t types.Type) bool {
+	if t == nil {
+		return false
+	}
 	s, ok := t.Underlying().(*types.Slice)
 	return ok && core.NamedTypeName(s.Elem()) == CmdType
 }
@@ -937,7 +1252,7 @@ func AnalyseSender(c *core.Ctx) *Sender {
 		as *ast.AssignStmt
 		x  *XGraph
 		rc *XCtx
-		rs *ast.RangeStmt
+		rs ast.Stmt // *ast.RangeStmt, or an index loop `for i := 0; i < len(batch); i++`
 		n  int
 	}
 	var cands []cand
@@ -963,6 +1278,12 @@ func AnalyseSender(c *core.Ctx) *Sender {
 					cd.n++
 					cd.rc, cd.rs = pt.C, r
 				}
+				if f, ok := m.(*ast.ForStmt); ok {
+					if _, bx := indexLoop(pt.C.Info, f); bx != nil && sliceOfCmd(pt.C.Info.TypeOf(bx)) {
+						cd.n++
+						cd.rc, cd.rs = pt.C, f
+					}
+				}
 				return true
 			})
 		}
@@ -983,10 +1304,28 @@ func AnalyseSender(c *core.Ctx) *Sender {
 	if cd.n != 1 {
 		return und("range", s.Lit.Pos(), "expected one range over the batch in the closure, found %d", cd.n)
 	}
-	s.Range = cd.rs
+	s.Loop = cd.rs
 	rinfo := s.RC.Info
+	var batchExpr ast.Expr
+	var entry ast.Node // the node evaluated once before the first iteration
+	var idxVar types.Object
+	switch l := s.Loop.(type) {
+	case *ast.RangeStmt:
+		s.Range = l
+		s.LoopBody, batchExpr, entry = l.Body, l.X, l.X
+		s.kBody, s.kHead, s.kDone = cfg.KindRangeBody, cfg.KindRangeLoop, cfg.KindRangeDone
+		if id, isID := l.Value.(*ast.Ident); isID && id.Name != "_" {
+			s.ItemVar = core.ObjOf(rinfo, id)
+		} else if id, isID := l.Key.(*ast.Ident); isID && id.Name != "_" {
+			idxVar = core.ObjOf(rinfo, id)
+		}
+	case *ast.ForStmt:
+		iv, bx := indexLoop(rinfo, l)
+		s.LoopBody, batchExpr, entry, idxVar = l.Body, bx, l.Init, iv
+		s.kBody, s.kHead, s.kDone = cfg.KindForBody, cfg.KindForLoop, cfg.KindForDone
+	}
 	// the batch variable: the local of sendTargetCommand the ranged expression stands for
-	s.RangeExpr = s.X.Resolve(s.RC, s.Range.X)
+	s.RangeExpr = s.X.Resolve(s.RC, batchExpr)
 	var tun types.Object
 	ast.Inspect(s.RangeExpr, func(m ast.Node) bool {
 		if id, ok := m.(*ast.Ident); ok && tun == nil {
@@ -997,28 +1336,42 @@ func AnalyseSender(c *core.Ctx) *Sender {
 		return true
 	})
 	if tun == nil {
-		return und("batch", s.Range.Pos(), "cannot identify the batch variable in `%s`", c.Src(s.RangeExpr))
+		return und("batch", s.Loop.Pos(), "cannot identify the batch variable in `%s`", c.Src(s.RangeExpr))
 	}
 	s.Tunnel = tun
-	rp, ok := s.RC.G.Find(s.Range.X)
+	rp, ok := s.RC.G.Find(entry)
 	if !ok {
-		return und("range", s.Range.Pos(), "range expression not in the control-flow graph")
+		return und("range", s.Loop.Pos(), "loop over the batch not in the control-flow graph")
 	}
 	s.RangeX = XPoint{s.RC, rp}
 	if s.RC == s.X.Root {
 		s.RangePt = rp
 	}
-	if id, isID := s.Range.Value.(*ast.Ident); isID {
-		s.ItemVar = core.ObjOf(rinfo, id)
+	if idxVar != nil {
+		// index form: the element is batch[i], possibly named by a first statement `v := batch[i]`
+		isElem := func(e ast.Expr) bool {
+			ix, ok := ast.Unparen(e).(*ast.IndexExpr)
+			return ok && pat.Same(rinfo, ix.X, batchExpr) && IsObj(rinfo, idxVar)(ix.Index)
+		}
+		s.elem = isElem
+		if len(s.LoopBody.List) > 0 {
+			if as, ok := s.LoopBody.List[0].(*ast.AssignStmt); ok && as.Tok == token.DEFINE && len(as.Lhs) == 1 && len(as.Rhs) == 1 && isElem(as.Rhs[0]) {
+				s.ItemVar = core.ObjOf(rinfo, as.Lhs[0])
+			}
+		}
 	}
-	if s.ItemVar == nil {
-		return und("range", s.Range.Pos(), "the range over the batch does not bind the element")
+	if s.ItemVar == nil && s.elem == nil {
+		return und("range", s.Loop.Pos(), "the loop over the batch does not bind the element")
 	}
-	core.Inspect(s.Range.Body, func(m ast.Node) bool {
+	core.Inspect(s.LoopBody, func(m ast.Node) bool {
 		if call, ok := m.(*ast.CallExpr); ok {
 			if site := SendOf(rinfo, call); site != nil {
 				s.Data = append(s.Data, site)
-				if id, ok := ast.Unparen(s.X.Resolve(s.RC, site.Conn)).(*ast.Ident); ok {
+				conn := s.X.Resolve(s.RC, site.Conn)
+				if o, ok := SoleOrigin(info, fn.Decl, conn); ok && o.Expr != nil && o.Op == 0 && !o.Range && o.Res <= 0 {
+					conn = o.Expr // through single-definition copies
+				}
+				if id, ok := ast.Unparen(conn).(*ast.Ident); ok {
 					s.Conn = core.ObjOf(info, id)
 				}
 			}
@@ -1026,7 +1379,7 @@ func AnalyseSender(c *core.Ctx) *Sender {
 		return true
 	})
 	if len(s.Data) == 0 || s.Conn == nil {
-		return und("data-send", s.Range.Pos(), "no conn.Send call on a connection variable inside the range over the batch")
+		return und("data-send", s.Loop.Pos(), "no conn.Send call on a connection variable inside the range over the batch")
 	}
 
 	// the select statement with the receive from sendBuf
@@ -1037,7 +1390,7 @@ func AnalyseSender(c *core.Ctx) *Sender {
 		}
 		for _, cl := range sel.Body.List {
 			cc := cl.(*ast.CommClause)
-			if as, ok := cc.Comm.(*ast.AssignStmt); ok && len(as.Lhs) == 1 && len(as.Rhs) == 1 {
+			if as, ok := cc.Comm.(*ast.AssignStmt); ok && (len(as.Lhs) == 1 || len(as.Lhs) == 2) && len(as.Rhs) == 1 {
 				if u, ok := ast.Unparen(as.Rhs[0]).(*ast.UnaryExpr); ok && u.Op == token.ARROW && IsSendBuf(info, u.X) {
 					s.Select, s.RecvComm = sel, as
 					s.Item = core.ObjOf(info, as.Lhs[0])
